@@ -316,3 +316,22 @@ def write_evidence(ctx, mod, result, obl, known_lines, nviol, wall):
     os.makedirs(os.path.join(VERIF, 'evidence'), exist_ok=True)
     with open(os.path.join(VERIF, 'evidence', ctx.pid + '.json'), 'w') as f:
         json.dump(ev, f, indent=1, default=str)
+
+
+def replay_by_rerun(mod, rec):
+    """Replay for properties whose cases are whole scenarios (routes, argument products, histories): the recorded
+    seed and tier regenerate the same deterministic case list; the recorded case is looked up among the failures of
+    the re-run.  Exit status 1 = the recorded input still fails on the current implementation, 0 = it no longer does."""
+    import json as _json
+    ctx = Ctx(rec.get('property', 'C00'), rec.get('tier', 'quick'), int(rec.get('seed', 0) or 0))
+    res = mod.run(ctx)
+    key = _json.dumps(rec.get('input'), sort_keys=True, default=str)
+    for f in res.get('failures', []):
+        if _json.dumps(f.get('input'), sort_keys=True, default=str) == key:
+            print('input:    %s' % key[:400])
+            print('observed: %s' % str(f.get('observed'))[:400])
+            print('expected: %s' % str(f.get('expected'))[:400])
+            return 1
+    print('input:    %s' % key[:400])
+    print('the recorded input no longer fails (%d cases re-run, %d other failures)' % (res.get('evaluations', 0), len(res.get('failures', []))))
+    return 0
